@@ -130,8 +130,9 @@ ENTRIES = {
             "leaves the graph unchanged; acyclicity is an invariant of every op sequence. Differential check against "
             "DirectedAcyclicGraph on all DAGs up to 5 nodes under sampled orders and three construction APIs, random and "
             "seeded larger graphs, a malformed stream; independent path-blocking oracle for gate D.",
-            "Equivalence of the moral-graph criterion with path-blocking d-separation is tested by compiled evaluation on "
-            "all DAGs <= 5 nodes, not proved; networkx reachability measured (gate H).",
+            "The moral-graph criterion is proved equal to path-blocking d-separation for every finite DAG (Lauritzen et al.: "
+            "dsep_moral_iff_pathblocking, check_iff_backdoor_paths, check_eq_backdoorPaths); networkx reachability "
+            "measured (gate H); the label <-> number mapping of the harness is outside the theorems.",
             "Lean 4 proof (induction on edge lists / op sequences) + differential correspondence", "DESIGN.md §6 C18"),    'C19': ("Lean theorems on the Frechet-bound expressions regenerated from RiskDifference.fit: rows + a completion of the "
             "unobserved potential outcomes are linked to counts; for every completion lower <= causal RD <= upper; both ends "
             "are attained by explicit completions; width is one; the crude RD lies inside (binary exposure). Exhaustive 2x2 "
@@ -149,6 +150,27 @@ ENTRIES = {
             "Lean 4 proof (induction over folds / search steps) + trace correspondence", "DESIGN.md §6 C20"),
 }
 
+# round 4: source lines moved under the translator (regenerated from /repo on every run, bridge theorem to the model,
+# executed against the implementation by gate K), appended to the level text of the property concerned
+ROUND4 = {
+    'C04': "Round 4: _sample_split_, the nuisance helpers, the n_splits guards and the pairing slices of the four cross-fit classes are regenerated from source (Gen/XfitSplit, Props/C04_Gen).",
+    'C05': "Round 4: StochasticIPTW.fit, the IPCW uncensored indicator and cumulative products, and the IPMW monotone / single-variable weight lines are regenerated from source (Gen/Stoch, Gen/Ipcw, Gen/Ipmw; Props/C05_Gen, C05_Ipcw, C05_Ipmw).",
+    'C06': "Round 4: the rest of zepid/calc/utils.py that reports intervals (sensitivity, specificity, ppv/npv converters, rubins_rules, semibayes, counternull_pvalue, ...), interaction_contrast_ratio's delta interval and aipw_calculator's cross-fit (splits) branch are regenerated from source (Gen/Calc2, Gen/Icr, Gen/FitSplits; Props/C06_Calc, C06_Icr, C06_Splits, C06_Frames).",
+    'C07': "Round 4: Sensitivity / Specificity / Diagnostics .fit regenerated from source (Gen/Diag, Props/C07_Diag).",
+    'C08': "Round 4: theorems for the GEE sandwich of the IPTW marginal structural model, TMLE targeting under A -> 1-A (through the bridge: the regenerated TMLE.fit), the ICE recursion (permutation, relabelling) and SurvivalGFormula under the flip; SNM entries regenerated (Props/C08_Gen, C08_Snm).",
+    'C09': "Round 4: the SNM closed-form entries and GTransportFormula.fit are regenerated from source and the replication theorems restated for them (Props/C09_Snm, C09_Transport); per-row weights that fall during follow-up (survival_replicate_rows).",
+    'C10': "Round 4: check_input_data and its twelve call sites are regenerated from source (Gen/InputData, Props/C10_Gen).",
+    'C11': "Round 4: the per-class tables are regenerated from /repo's source by a static effect analysis (harness/effects.py -> Gen/Tables; Props/C11_Gen: gen_tables_all, gen_history_independent, ...), which refuses in-place mutation of stored state or of the caller's arguments.",
+    'C12': "Round 4: SurvivalGFormula.fit (unweighted) and the ICE step are regenerated from source (Gen/SurvGF, Gen/IceStep; Props/C12_Gen).",
+    'C13': "Round 4: the Monte Carlo loop's bookkeeping (time index, plan chain, at-risk and low-memory masks, censoring) is regenerated from source (Gen/MonteCarlo, Props/C13_Gen).",
+    'C14': "Round 4: StochasticIPTW.fit and TimeFixedGFormula.fit_stochastic (as a function of the recorded draws) are regenerated from source (Gen/Stoch, Gen/GfStoch; Props/C14_Gen, C14_GfStoch).",
+    'C15': "Round 4: _closed_form_solver_, the weight-column choice of fit and the search objective are regenerated from source (Gen/Snm, Props/C15_Gen).",
+    'C16': "Round 4: GTransportFormula.fit, its outcome-model call site and the sampling / treatment call sites of IPSW and AIPSW are regenerated from source (Gen/Transport, Gen/Sites; Props/C16_Transport, C16_Sites).",
+    'C17': "Round 4: every call site of probability_bounds (15 sites, 4 caller flags) and the sampling / missing-model sites are regenerated from source and proved equal to the use-site models (Gen/BoundSites, Gen/Sites; Props/C17_BoundSites, C17_Sites).",
+    'C18': "Round 4: moral-graph criterion = path-blocking d-separation proved for every finite DAG (Lemmas/DagPaths).",
+    'C20': "Round 4: SuperLearner's coefficient post-processing, refit loops, predict combination and use of the folds, and StepwiseSL's search control are regenerated from source (Gen/Stack, Gen/Stepwise; Props/C20_Gen, C20_Step).",
+}
+
 NOT_APPLICABLE = {}
 
 
@@ -160,6 +182,8 @@ def main():
         if not os.path.exists(os.path.join(ROOT, 'harness', 'props', pid.lower() + '.py')):
             continue
         text, note, tech, ref = ENTRIES[pid]
+        if pid in ROUND4:
+            text = text + ' ' + ROUND4[pid]
         checks.append({
             'property_id': pid,
             'quick_cmd': '/venv/bin/python harness/check.py %s --tier quick' % pid,
